@@ -1,4 +1,5 @@
 import Jose.Lemmas.B64
+import Jose.Grid.C08
 /-
   C08 — base64url codec is a canonical bijection and respects output bounds.
   Property theorems only; helper lemmas are in Jose/Lemmas/B64.lean.
@@ -217,5 +218,18 @@ theorem json_form_refuses (j : Json) (o : Option Nat) (h : j.isString = false) :
     ("QUI" decodes to "AB"; "QUJ" has non-zero unused bits) -/
 example : decode [81, 85, 73] = some [65, 66] ∧ decode [81, 85, 74] = none ∧ BadTail [81, 85, 74] := by
   refine ⟨by decide, by decide, 74, 9, by decide, by decide, Or.inr (by decide)⟩
+
+
+/-! ### the model is the code, on a grid regenerated from the code on every run
+
+  `Jose/Grid/C08.lean` is rewritten by the translator (tools/extract_tables.py) on every run: it holds
+  what the library **built from the current working tree** answered, in-process, to a fixed grid of
+  operations — the buffer and JSON-string forms of the codec: every text of length ≤ 2 over a 12-character alphabet (valid characters, `=`, `+`, `/`, space, NUL, 0xFF) and longer texts of every length class, every byte string of length ≤ 2 over 4 values and longer ones, each with the size query, the exact, a too small and a larger output size.
+  `Driver.agrees` evaluates the model's handler for the row's operation (the same handler the
+  correspondence run uses) and compares with the recorded answer by `json_equal`.  The theorem is
+  checked by the kernel (`decide +kernel`: evaluation, no axiom); any edit of the C that changes one of
+  these answers makes it false, and the check then reports a violation. -/
+theorem model_is_code_on_grid : Jose.Grid.C08.chunks.all (fun c => c.all Jose.Driver.agrees) = true := by
+  decide +kernel
 
 end Jose.Props.C08
